@@ -117,20 +117,10 @@ def rule_hash_provenance(run):
                reason="hash-without-content")
 
 
-def r2(run):
-    hb = None
-    for b in run.facts.bodies_under("xs::api::handle_stream_append"):
-        if b.is_coroutine and q.live_calls(b, "cacache::put::Writer::commit"):
-            hb = b
-    if hb is None:
-        run.missing("xs::api::handle_stream_append|commit", "handle_stream_append does not commit a CAS writer")
-        return
-    run.touch(hb)
-    commits = q.live_calls(hb, "cacache::put::Writer::commit")
-    # comparison counter > 0
-    edges = []
-    counter = None
-    for bb, si in hb.switches():
+def positive_counter_edges(b):
+    """(edges on which `<counter> > 0` is known, counter local) for comparisons of a local counter with a constant."""
+    edges, counter = [], None
+    for bb, si in b.switches():
         if si["kind"] != "bool":
             continue
         cmp_ = q.comparison(si["cond"])
@@ -145,34 +135,46 @@ def r2(run):
         for truth in (True, False):
             rr = q.rel_on_edge(rel, truth)
             if (rr == "gt" and k == 0) or (rr == "ge" and k == 1) or (rr == "ne" and k == 0):
-                edges += q.edge_triples(hb, bb, lambda m, t=truth: m is t)
+                edges += q.edge_triples(b, bb, lambda m, t=truth: m is t)
                 counter = l[1]
-    for c in commits:
-        run.ob("xs::api::handle_stream_append|hash-only-with-body", bool(edges) and q.dominated(hb, c.bb, via_edges=edges), c.sp,
-               "the CAS writer is committed (and a hash produced) only on the `bytes_written > 0` edge", reason="empty-body-gets-hash")
-    if counter is not None:
-        incs = []
-        for bi, si, st in hb.stmt_points():
-            if st["k"] == "assign" and st["lhs"]["l"] == counter and not st["lhs"]["p"] and bi in hb.live_blocks():
-                e = hb.rvalue_expr(st["rv"])
-                if any(x[0] == "bin" and x[1].startswith("Add") for x in walk(e)):
-                    incs.append((bi, e, st["sp"]))
-        ok = len(incs) == 1 and any(x[0] == "call" and x[1].fn.endswith("::len") for x in walk(incs[0][1]))
-        run.ob("xs::api::handle_stream_append|counter-is-bytes-written", ok, incs[0][2] if incs else hb.sp, "the counter is the sum of the chunk lengths written", reason="empty-body-gets-hash")
-        writes = [c for c in hb.calls() if c.fn.endswith("write_all") and c.bb in hb.live_blocks()]
-        run.ob("xs::api::handle_stream_append|every-chunk-written", len(writes) >= 1 and all(any(q.reaches(hb, w.bb, i[0]) for i in incs) for w in writes), hb.sp,
-               "each body chunk is written to the CAS writer and then counted", reason="content-not-written")
-    # POST /cas rejects empty bodies before committing
-    cb = None
+    return edges, counter
+
+
+def r2(run):
+    # every place in the HTTP layer that commits a CAS writer (directly in a handler or in a shared body-to-CAS helper)
+    bodies = []
+    for b in run.facts.all_bodies():
+        if b.def_.startswith("xs::api::") and b.is_coroutine and q.live_calls(b, "cacache::put::Writer::commit"):
+            bodies.append(b)
+    run.floor("HTTP-layer bodies committing a CAS writer", len(bodies), 1)
+    for hb in bodies:
+        run.touch(hb)
+        fn = run.facts.enclosing_fn(hb)
+        commits = q.live_calls(hb, "cacache::put::Writer::commit")
+        edges, counter = positive_counter_edges(hb)
+        for c in commits:
+            run.ob("%s|hash-only-with-body" % fn, bool(edges) and q.dominated(hb, c.bb, via_edges=edges), c.sp,
+                   "the CAS writer is committed (and a hash produced) only on a `bytes_written > 0` edge in %s" % fn, reason="empty-body-gets-hash")
+        if counter is not None:
+            incs = []
+            for bi, si, st in hb.stmt_points():
+                if st["k"] == "assign" and st["lhs"]["l"] == counter and not st["lhs"]["p"] and bi in hb.live_blocks():
+                    e = hb.rvalue_expr(st["rv"])
+                    if any(x[0] == "bin" and x[1].startswith("Add") for x in walk(e)):
+                        incs.append((bi, e, st["sp"]))
+            ok = len(incs) == 1 and any(x[0] == "call" and x[1].fn.endswith("::len") for x in walk(incs[0][1]))
+            run.ob("%s|counter-is-bytes-written" % fn, ok, incs[0][2] if incs else hb.sp, "the counter is the sum of the chunk lengths written", reason="empty-body-gets-hash")
+            writes = [c for c in hb.calls() if c.fn.endswith("write_all") and c.bb in hb.live_blocks()]
+            run.ob("%s|every-chunk-written" % fn, len(writes) >= 1 and all(any(q.reaches(hb, w.bb, i[0]) for i in incs) for w in writes), hb.sp,
+                   "each body chunk is written to the CAS writer and then counted", reason="content-not-written")
+    # POST /cas answers 400 for an empty body (no hash is reported for nothing)
     for b in run.facts.bodies_under("xs::api::handle_cas_post"):
-        if b.is_coroutine and q.live_calls(b, "cacache::put::Writer::commit"):
-            cb = b
-    if cb is not None:
-        run.touch(cb)
-        r400 = q.live_calls(cb, "xs::api::response_400")
-        commits = q.live_calls(cb, "cacache::put::Writer::commit")
-        run.ob("xs::api::handle_cas_post|empty-rejected", len(r400) >= 1 and not any(q.reaches(cb, r.bb, c.bb) for r in r400 for c in commits), cb.sp,
-               "POST /cas answers 400 for an empty body without committing", reason="empty-body-gets-hash")
+        if b.is_coroutine and b.def_ == "xs::api::handle_cas_post::{closure#0}":
+            run.touch(b)
+            r400 = q.live_calls(b, "xs::api::response_400")
+            commits = q.live_calls(b, "cacache::put::Writer::commit")
+            run.ob("xs::api::handle_cas_post|empty-rejected", len(r400) >= 1 and not any(q.reaches(b, r.bb, c.bb) for r in r400 for c in commits), b.sp,
+                   "POST /cas answers 400 for an empty body without committing", reason="empty-body-gets-hash")
 
 
 def r3(run):
